@@ -146,7 +146,8 @@ open Res
 /-- the decompressed object is a plain object whose runs are the canonical pieces of the input's records -/
 theorem plainObj_of_output {p : Bytes} {v v2 : View} (h : parse p = .ok v) {L : C03.Layout p} (o : C05.Output p L)
     (h2 : parse o.bytes = .ok v2) (pp0 : PP) :
-    ∃ P : PlainObj (pp0.rebased o.bytes v2), P.A = o.pa ∧ P.N = o.pn ∧ P.R = o.pr ∧ P.hdr = p.take 12 := by
+    ∃ P : PlainObj (pp0.rebased o.bytes v2), P.A = o.pa ∧ P.N = o.pn ∧ P.R = o.pr ∧ P.hdr = p.take 12 ∧
+      o.qc = (encLabels P.qls ++ [0]) ++ P.q4 := by
   have hwf := C02.accepted_wf p v h
   obtain ⟨hl, hqd, qeW, hneW, _, hclW, hqr, _⟩ := hwf
   have hqeW : qeW = L.qe := nameEnds_functional hneW L.hq.1
@@ -188,7 +189,7 @@ theorem plainObj_of_output {p : Bytes} {v v2 : View} (h : parse p = .ok v) {L : 
     (by rw [hg16 4 (by omega)]; exact hqd) (validName_ok hv) hq4 hcl hA hN hR hca hcn hcr hqr' h2
   exact ⟨⟨p.take 12, (p.drop L.qe).take 4, ls, o.pa, o.pn, o.pr, L.o2, L.o3, L.o4, hH, by rw [hg16 4 (by omega)]; exact hqd,
     validName_ok hv, hq4, hcl, hA, hN, hR, hca, hcn, hcr, hqr', by simp [PP.rebased, hbytes], by simp [PP.rebased, w1],
-    by simp [PP.rebased, w2], by simp [PP.rebased, w3], by simp [PP.rebased, w4], by simp [PP.rebased]⟩, rfl, rfl, rfl, rfl⟩
+    by simp [PP.rebased, w2], by simp [PP.rebased, w3], by simp [PP.rebased, w4], by simp [PP.rebased]⟩, rfl, rfl, rfl, rfl, hqc⟩
 
 end Dns
 
@@ -466,7 +467,7 @@ theorem insert_parsed_step {p : Bytes} {v : View} (h : parse p = .ok v) (sect : 
   rw [hob] at h3 hrec
   have hv32 : v3 = v2 := by rw [h2] at h3; simpa using h3.symm
   subst hv32
-  obtain ⟨P, hA, hN, hR, hH⟩ := plainObj_of_output h o h2 pp1
+  obtain ⟨P, hA, hN, hR, hH, _⟩ := plainObj_of_output h o h2 pp1
   refine ⟨pp1.rebased o.bytes v3, L, o, P, hA, hN, hR, hH, rfl, ?_⟩
   have hmc2 : (pp1.rebased o.bytes v3).maybeCompressed = false := rfl
   have lhs : insertRR (PP.ofView p v) sect rr = (do
